@@ -43,10 +43,6 @@ theorem R.bind_leaves {α β} {r : R α} {f : α → R β} {t v} (h : r.leaves t
   unfold R.bind
   rw [h2, h1]
 
-/-- On operands `binop` accepts (no value of the host type among them) the operator makes no host call. -/
-theorem binopEv_of_binop {op : BinOp} {a b v : Val} (h : binop op a b = some v) : binopEv op a b = some ([], v) := by
-  cases a <;> cases b <;> simp_all [binopEv, binop]
-
 theorem getField_inv {env : Env} {x i : Nat} {a : Int} (h : getField env x i = some a) :
     ∃ fs, lookup env x = some (.recd fs) ∧ fs[i]? = some a := by
   unfold getField at h
